@@ -1,4 +1,6 @@
 import Ivg.Lemmas.EncoderProto
+import Ivg.Lemmas.ProtoLink
+import Ivg.Props.C01
 import Ivg.Gen.Tie.DrawOps
 import Ivg.Gen.Tie.EncodeErrors
 import Ivg.Gen.Tie.Magic
@@ -131,12 +133,46 @@ theorem zero_value_lod_deviation :
   · rfl
   · rw [reset_default]; rfl
 
+/-- Clause "every violation-free history with all paths ended (and a valid viewBox) yields a stream the
+    decoder accepts and that decodes to that history": for a Reset-free history `p` of delivering calls
+    (colours constructible in Go) that the protocol AUTOMATON runs from `styling` back to `styling`
+    without failure, after `Reset vb pal` with a valid viewBox and a premultiplied palette, `Bytes`
+    succeeds and the decoder accepts the bytes and delivers `Reset` followed by exactly the history,
+    each call up to the quantisation `Q hi` of its numeric operands (C01, C08).  This joins the automaton
+    of this file to the round-trip theorem of C01 (`ProtoLink.proto_of_prun`). -/
+theorem violation_free_decodes (vb : ViewBox F32) (pal : Palette) (hi : Bool) (p : List (Call F32))
+    (hv : vbNeDefault vb = true → Header.VBValid vb) (hp : ∀ c ∈ pal.toList, c.validPremul = true)
+    (hnr : ∀ c ∈ p, classifyCall c ≠ .reset) (hwf : ∀ adj incr c, Call.setCReg adj incr c ∈ p → c.WF)
+    (hvf : prun .styling (p.map classifyCall) = .styling) :
+    let e := ({ (({} : Encoder).reset vb pal) with hiRes := hi } : Encoder).run p
+    ∃ bs, e.bytes.2 = .ok bs ∧
+      Dec.decode [] bs = (.reset (Header.rtViewBox vb) pal :: p.map (RoundTrip.Q hi), none) :=
+  Ivg.Props.C01.encode_decode vb pal hi p false hv hp (ProtoLink.proto_of_prun p false false hnr hwf hvf)
+
+/-- the same with a path left open at the end (the decoder accepts such a stream too) -/
+theorem violation_free_open_decodes (vb : ViewBox F32) (pal : Palette) (hi : Bool) (p : List (Call F32))
+    (hv : vbNeDefault vb = true → Header.VBValid vb) (hp : ∀ c ∈ pal.toList, c.validPremul = true)
+    (hnr : ∀ c ∈ p, classifyCall c ≠ .reset) (hwf : ∀ adj incr c, Call.setCReg adj incr c ∈ p → c.WF)
+    (hvf : prun .styling (p.map classifyCall) = .drawing) :
+    let e := ({ (({} : Encoder).reset vb pal) with hiRes := hi } : Encoder).run p
+    ∃ bs, e.bytes.2 = .ok bs ∧
+      Dec.decode [] bs = (.reset (Header.rtViewBox vb) pal :: p.map (RoundTrip.Q hi), none) :=
+  Ivg.Props.C01.encode_decode vb pal hi p true hv hp (ProtoLink.proto_of_prun p false true hnr hwf hvf)
+
+/-- the automaton and the inductive protocol predicate of the round-trip proof accept the same
+    Reset-free programs -/
+theorem automaton_iff_proto (p : List (Call F32)) (inPath endPath : Bool)
+    (hnr : ∀ c ∈ p, classifyCall c ≠ .reset) (hwf : ∀ adj incr c, Call.setCReg adj incr c ∈ p → c.WF) :
+    prun (ProtoLink.st inPath) (p.map classifyCall) = ProtoLink.st endPath ↔ EncoderInv.Proto inPath p endPath :=
+  ⟨ProtoLink.proto_of_prun p inPath endPath hnr hwf, ProtoLink.prun_of_proto p inPath endPath⟩
+example : prun .styling (([.setCSel 70, .startPath 2 ⟨0x3f800000⟩ ⟨0xc0000000⟩, .d2 .L ⟨0x40400000⟩ ⟨0x40400000⟩,
+    .closeEnd] : List (Call F32)).map classifyCall) = .styling := by decide
+
 /-!
 ## Not proved in this file
 
-* "every violation-free history with all paths ended (and a valid viewBox) yields a stream the decoder
-  accepts and that decodes to that history": this is the encode/decode round trip, property C01
-  (`Ivg/Props/C01.lean`); nothing about the decoder is proved here.
+* "decodes to that history" is up to the quantisation `Q hi` of numeric operands (what the format can
+  hold); exactness on representable operands is C08.
 * The automaton `Spec.Protocol.pstep` IS the formal reading of "violated the protocol"; its agreement
   with the English text is by inspection (see the `example`s in `Ivg/Spec/Protocol.lean`).
 * Go-level aliasing is outside the model: `Bytes()` returns a slice that aliases the Encoder's buffer,
@@ -150,5 +186,6 @@ end Ivg.Props.C10
   Ivg.Props.C10.bytes_error_iff, Ivg.Props.C10.bytes_ok_iff, Ivg.Props.C10.bytes_error_iff_after_reset,
   Ivg.Props.C10.err_iff_violation, Ivg.Props.C10.first_violation_kept, Ivg.Props.C10.reset_classification,
   Ivg.Props.C10.reset_clears_error, Ivg.Props.C10.zero_value_is_default_reset,
-  Ivg.Props.C10.zero_value_lod_deviation,
+  Ivg.Props.C10.zero_value_lod_deviation, Ivg.Props.C10.violation_free_decodes,
+  Ivg.Props.C10.violation_free_open_decodes, Ivg.Props.C10.automaton_iff_proto,
   Ivg.Gen.Tie.encodeErrors_tie, Ivg.Gen.Tie.drawOps_tie, Ivg.Gen.Tie.magic_tie]
